@@ -568,7 +568,7 @@ class Interp:
     # ---- running
     def feasible(self, cons):
         s = z3.Solver()
-        s.set('timeout', 5000)
+        s.set('timeout', 60000)
         for c in cons:
             s.add(c)
         r = s.check()
